@@ -5,6 +5,7 @@
 mod bind;
 mod game;
 mod indep;
+mod ledger;
 mod libl;
 mod proto;
 mod revpair;
@@ -74,6 +75,10 @@ fn real_main() {
         "range" => {
             let thorough = a.get("tier").map(|t| t == "thorough").unwrap_or(false);
             write_events(&a["out"], &libl::range(seed, thorough));
+        }
+        "ledger" => {
+            let thorough = a.get("tier").map(|t| t == "thorough").unwrap_or(false);
+            write_events(&a["out"], &ledger::run(seed, thorough));
         }
         "psig" => {
             let thorough = a.get("tier").map(|t| t == "thorough").unwrap_or(false);
